@@ -116,17 +116,28 @@ fn residual_ok(a: &[Vec<DR>], x: &[DR], b: &[DR], lsq: bool, second: bool) -> Re
         }
         r = r.add(&rhs[i], -1.0);
         s = s.add(&rhs[i].abs(), 1.0);
+        // norm-wise floors: a derivative component that is truly zero still carries rounding noise
+        // proportional to the size of the WHOLE derivative block of the solution (conditioning acts on
+        // the block, not on the single component)
+        let mut sg = 0.0_f64;
+        let mut sh = 0.0_f64;
+        for j in 0..n {
+            let xg = x[j].g.iter().fold(0.0_f64, |m, v| m.max(v.abs()));
+            let xh = x[j].h.iter().fold(0.0_f64, |m, v| m.max(v.abs()));
+            sg += mat[i][j].v.abs() * xg;
+            sh += mat[i][j].v.abs() * xh;
+        }
         if !(r.v.abs() <= TOL * s.v) {
             return Err(format!("row {}: value residual {:e} (scale {:e})", i, r.v, s.v));
         }
         for c in 0..nv {
-            if !(r.g[c].abs() <= TOL * s.g[c].max(s.v * gmax)) {
+            if !(r.g[c].abs() <= TOL * s.g[c].max(s.v * gmax).max(sg)) {
                 return Err(format!("row {}: first-derivative residual {:e} w.r.t. variable #{} (scale {:e})", i, r.g[c], c, s.g[c]));
             }
         }
         if second {
             for c in 0..nv * nv {
-                if !(r.h[c].abs() <= TOL * s.h[c].max(s.v * gmax * gmax)) {
+                if !(r.h[c].abs() <= TOL * s.h[c].max(s.v * gmax * gmax).max(sh)) {
                     return Err(format!("row {}: second-derivative residual {:e} for pair ({}, {}) (scale {:e})", i, r.h[c], c / nv, c % nv, s.h[c]));
                 }
             }
